@@ -134,7 +134,8 @@ def main(tier):
     # factorial: integer branch is the product 2..=n (f64), non-integers go through gamma(x+1)
     if "eval_f64" in models:
         m = models["eval_f64"]
-        a = m.tb.eval_arms().get("Factorial")
+        r_, _ = chain.postfix_chain(m, "!")
+        a = m.tb.eval_arms().get(r_[0]) if r_ else None
         X = ("ev", ("C0",))
         ok = False
         if a:
@@ -167,6 +168,8 @@ def main(tier):
         a = models["eval_f64"].tb.eval_arms()
         m = models["eval_number"]
         for ctor, name in (("LambertW", "w("),):
+            rf_, _ = chain.function_chain(models["eval_f64"], name)
+            ctor = rf_[0] if rf_ else ctor
             r, err = chain.function_chain(m, name)
             if r and ctor in a:
                 t = strip_num(canon(chain.peval(r[1], {("ev", ("A0",)): FLT("a")})))
